@@ -575,16 +575,34 @@ func runC04(c *Ctx) {
 	if lcd := c.Anchor("O6", pkgTopo, "", "lowestCommonDomainID"); lcd != nil {
 		// validNodes takes a node only after every level label was found on it
 		n := 0
-		for _, in := range instrsIn(lcd, func(in ssa.Instruction) bool { _, ok := in.(*ssa.MapUpdate); return ok }) {
+		for _, h := range p.deepFind(lcd, func(in ssa.Instruction) bool { _, ok := in.(*ssa.MapUpdate); return ok }, 2) {
+			in := h.In
 			mu := in.(*ssa.MapUpdate)
 			if !strings.Contains(typeKey(mu.Map.Type()), "NodeInfo") {
 				continue
 			}
 			n++
-			c.Hold("O6", "PROV", funcKey(lcd)+": validNodes is built from the incoming node set", instrPos(in), termOf(mu.Value).String())
-			c.Check(rootParam(termOf(mu.Value)) == 0, "O6", "PROV", funcKey(lcd)+": validNodes ⊆ incoming node set", instrPos(in), "node of nodeSet", "validNodes receives a node that is not from the incoming node set")
+			vt := liftTerm(termOf(mu.Value), h.Chain)
+			c.Hold("O6", "PROV", funcKey(lcd)+": validNodes is built from the incoming node set", instrPos(in), vt.String())
+			c.Check(rootParam(vt) == 0, "O6", "PROV", funcKey(lcd)+": validNodes ⊆ incoming node set", instrPos(in), "node of nodeSet", "validNodes receives a node that is not from the incoming node set")
 		}
 		c.Floor("O6", "PROV validNodes insertions", n, 1)
+		// GHOST: a node whose label map misses ANY level label is never inserted (the verdict over the levels is
+		// sticky: a later level that is present cannot make up for an earlier one that is missing)
+		run, hits := p.ghostForbidAfterEvent(lcd, commaOkLookupEvent("Labels"), func(in ssa.Instruction) bool {
+			mu, ok := in.(*ssa.MapUpdate)
+			return ok && strings.Contains(typeKey(mu.Map.Type()), "NodeInfo")
+		})
+		switch {
+		case run.Undec != "":
+			c.Undec("O6", "GHOST", funcKey(lcd)+": a node missing a level label is not a valid node", lcd.Pos(), run.Undec)
+		case len(hits) == 0 || run.Events == 0:
+			c.Check(false, "O6", "GHOST", funcKey(lcd)+": a node missing a level label is not a valid node", lcd.Pos(), "", "the insertion into validNodes is not preceded by a presence test of the level labels in the node's label map")
+		default:
+			c.Check(len(run.Finds) == 0, "O6", "GHOST", funcKey(lcd)+": a node missing a level label is not a valid node", lcd.Pos(),
+				fmt.Sprintf("%d abstract states: no insertion after a missing label, for any number of levels", run.States),
+				"a node that lacks one of the topology's level labels can still enter validNodes (and with it a domain with an empty id): a workload with a required level can be placed on it — "+ghostWhy(p, run))
+		}
 	}
 	if ga := c.Anchor("O6", pkgTopo, "topologyPlugin", "getJobAllocatableDomains"); ga != nil {
 		pinned := p.Func(pkgTopo, "", "getRelevantDomainsWithAllocatedPods")
